@@ -8,7 +8,7 @@
      func (e *Engine) Render(ctx, name, data) (io.Reader, error) {
          if cap(e.ratelimit) > 0 {
              select {
-             case <-ctx.Done():            return nil, error      // Cancel r  (takes no slot)
+             case <-ctx.Done():            return nil, error      // Cancel r  (takes no slot; needs an ended context)
              case e.ratelimit <- struct{}{}:                      // Enter r   (needs a free slot)
              }
              defer func() { <-e.ratelimit }()                     // Leave r _ (every way out)
@@ -26,6 +26,20 @@
    the model is therefore an ACCEPTOR of observed traces, not a scheduler.
    Render identifiers are fresh per call ([used]).
 
+   Contexts.  [ended] holds the renders whose context is over: a render may be
+   STARTED with a context that is already cancelled or past its deadline
+   ([Start r true]), or its context ends later ([CtxEnd r], at any moment: while
+   it waits, while another render hands its slot back, while it is in flight or
+   after it is gone).  [<-ctx.Done()] is ready exactly for an ended context, so
+   [Cancel r] needs [r] in [ended]; the send is ready exactly when a slot is
+   free.  When both are ready Go's select is free to choose: the acceptor allows
+   [Cancel r] (error, no slot) as well as [Enter r] (slot taken, handed back by
+   the deferred receive at [Leave r _]).  Nothing else is allowed: in particular
+   there is no step that makes a render go away while it keeps a slot - a caller
+   that got the context error never entered (theorems C09_ended_start,
+   C09_cancel_release_race, C09_no_leak).  With cap = 0 Render never looks at
+   the context: [Start r true] is in flight at once like any other.
+
    S.  What the property demands is stated on the trace alone (functions
    [started], [entered], [left_of], [cancelled_of], [entered_not_left],
    [all_started_done]); the theorems in Proofs/GateProofs.v relate the two. *)
@@ -36,20 +50,22 @@ Definition rid := nat.
 Inductive outcome := o_ok | o_not_found | o_func_error | o_panic.
 
 Inductive gate_event :=
-| Start  (r : rid)                (* Render called *)
+| Start  (r : rid) (over : bool)  (* Render called; [over]: with a context that is already cancelled / expired *)
+| CtxEnd (r : rid)                (* the context of a started render ends (cancel or deadline) *)
 | Enter  (r : rid)                (* the send on the channel succeeded *)
 | Leave  (r : rid) (o : outcome)  (* Render returned or panicked: the deferred receive ran *)
-| Cancel (r : rid).               (* ctx.Done() won the select: error returned *)
+| Cancel (r : rid).               (* ctx.Done() won the select: error returned, no slot taken *)
 
 Record gate_state := mk_gate {
   cap      : nat;
   inflight : list rid;
   waiting  : list rid;
   used     : list rid;
+  ended    : list rid;   (* renders whose context is over *)
 }.
 
 (* WithRateLimit n on a new engine; GetRateLimit reads [cap] back *)
-Definition gate_init (n : nat) : gate_state := mk_gate n [] [] [].
+Definition gate_init (n : nat) : gate_state := mk_gate n [] [] [] [].
 Definition get_rate_limit (s : gate_state) : nat := cap s.
 
 Definition memr (r : rid) (l : list rid) : bool := existsb (Nat.eqb r) l.
@@ -57,22 +73,27 @@ Definition del (r : rid) (l : list rid) : list rid := filter (fun x => negb (Nat
 
 Definition gate_step (s : gate_state) (e : gate_event) : option gate_state :=
   match e with
-  | Start r =>
+  | Start r over =>
+    let en := if over then r :: ended s else ended s in
     if memr r (used s) then None
     else if cap s =? 0
-         then Some (mk_gate (cap s) (inflight s ++ [r]) (waiting s) (r :: used s))
-         else Some (mk_gate (cap s) (inflight s) (waiting s ++ [r]) (r :: used s))
+         then Some (mk_gate (cap s) (inflight s ++ [r]) (waiting s) (r :: used s) en)
+         else Some (mk_gate (cap s) (inflight s) (waiting s ++ [r]) (r :: used s) en)
+  | CtxEnd r =>
+    if memr r (used s)
+    then Some (mk_gate (cap s) (inflight s) (waiting s) (used s) (r :: ended s))
+    else None
   | Enter r =>
     if memr r (waiting s) && (length (inflight s) <? cap s)
-    then Some (mk_gate (cap s) (inflight s ++ [r]) (del r (waiting s)) (used s))
+    then Some (mk_gate (cap s) (inflight s ++ [r]) (del r (waiting s)) (used s) (ended s))
     else None
   | Leave r _ =>
     if memr r (inflight s)
-    then Some (mk_gate (cap s) (del r (inflight s)) (waiting s) (used s))
+    then Some (mk_gate (cap s) (del r (inflight s)) (waiting s) (used s) (ended s))
     else None
   | Cancel r =>
-    if memr r (waiting s)
-    then Some (mk_gate (cap s) (inflight s) (del r (waiting s)) (used s))
+    if memr r (waiting s) && memr r (ended s)
+    then Some (mk_gate (cap s) (inflight s) (del r (waiting s)) (used s) (ended s))
     else None
   end.
 
@@ -88,13 +109,17 @@ Definition reach (n : nat) (evs : list gate_event) : option gate_state :=
 (* ---------------------------------------------------------------- S: the trace alone *)
 
 Definition started (evs : list gate_event) : list rid :=
-  flat_map (fun e => match e with Start r => [r] | _ => [] end) evs.
+  flat_map (fun e => match e with Start r _ => [r] | _ => [] end) evs.
+
+(* renders whose context is over: started so, or ended later *)
+Definition ended_of (evs : list gate_event) : list rid :=
+  flat_map (fun e => match e with Start r true => [r] | CtxEnd r => [r] | _ => [] end) evs.
 
 (* a render is past the gate by an Enter, or - limit disabled - by being started *)
 Definition entered (n : nat) (evs : list gate_event) : list rid :=
   flat_map (fun e => match e with
                      | Enter r => [r]
-                     | Start r => if n =? 0 then [r] else []
+                     | Start r _ => if n =? 0 then [r] else []
                      | _ => []
                      end) evs.
 
@@ -116,8 +141,9 @@ Definition all_started_done (evs : list gate_event) : Prop :=
 Definition all_started_doneb (evs : list gate_event) : bool :=
   forallb (fun r => memr r (left_of evs) || memr r (cancelled_of evs)) (started evs).
 
-(* the refill: [rs] all start, then all enter *)
-Definition refill (rs : list rid) : list gate_event := map Start rs ++ map Enter rs.
+(* the refill: [rs] all start (live contexts), then all enter *)
+Definition refill (rs : list rid) : list gate_event :=
+  map (fun r => Start r false) rs ++ map Enter rs.
 
 (* same members (used by the judge to compare observed and model sets) *)
 Definition same_set (a b : list rid) : bool :=
